@@ -458,10 +458,30 @@ func (c *Ctx) checkPanicCensus() {
 		ks = append(ks, k)
 	}
 	sort.Strings(ks)
+	// sites that moved between functions (an extracted helper, a merged handler) are not new sites:
+	// the surplus over the reviewed table is compared with what disappeared from reviewed functions
+	surplus, deficit := 0, 0
+	for _, k := range ks {
+		if row, ok := reviewedPanics[k]; ok {
+			if count[k] > row.n {
+				surplus += count[k] - row.n
+			}
+		} else if !isInitClosure(k) {
+			surplus += count[k]
+		}
+	}
+	for k, row := range reviewedPanics {
+		if count[k] < row.n {
+			deficit += row.n - count[k]
+		}
+	}
+	moved := surplus > 0 && surplus <= deficit
 	for _, k := range ks {
 		row, ok := reviewedPanics[k]
 		construct := k + ": explicit panic/fatal sites"
 		switch {
+		case (!ok && !isInitClosure(k) || ok && count[k] > row.n) && moved:
+			r.OK("C13.5-panic-census", construct+" [moved]", c.pos(first[k]), fmt.Sprintf("%d site(s); the module-wide number of reviewed sites did not grow (%d moved, %d disappeared from reviewed functions)", count[k], surplus, deficit))
 		case !ok && isInitClosure(k):
 			r.OK("C13.5-panic-census", construct+" [plugin/worker start-up closure]", c.pos(first[k]), "goroutine body started during initialisation; panic is go/ssa's select fallthrough or an init assertion")
 		case !ok:
